@@ -22,7 +22,7 @@ from pvm.gen import grids as gg
 from pvm.gen import mdg as gm
 
 PROP = "C39"
-N = {"quick": 1000, "thorough": 60000}
+N = {"quick": 1000, "thorough": 30000}
 WORKERS = {"quick": 3, "thorough": 16}
 TIMEOUT = {"quick": 300, "thorough": 3000}
 CASE_TIMEOUT = 120.0
